@@ -9,7 +9,7 @@ use crate::rng::Rng;
 pub const RULE: &str = "case = one valid base file (generated with 1..3 records, or a bundled test file) of one format, from which malformed inputs are derived: EVERY prefix, single-byte substitution / deletion / insertion at every offset (quick: 3 sampled (operation, byte) pairs per offset; thorough: all) with bytes from {'>','[',']',':','/',tab,space,LF,CR,digit,letter,0x00,0x80,0xFF}, byte-order marks / stray terminators / NUL / blank lines in front of complete, unterminated and truncated bodies (with and without trailing junk), dropped final newline, ragged rows, over-long lines (the tokens of a line repeated 2-8 times), header without matrix, matrix without header, huge numbers, duplicated symbol rows; plus fixed inputs (empty, whitespace, random bytes, invalid UTF-8, a short unit such as `VV\n//\n`, `>`, a blank line repeated 3 / 300 / 60 000 times, every two-character tag in front of a TRANSFAC line). Each input is given to the reader of its format (1 in 4 also to the three other readers) through a Cursor or a random chunking schedule (BufReader capacity 1..300, short reads, injected Interrupted). Oracle: Reader::new and every next() run under catch_unwind (panic = violation); the consumer stops at the first Err / None and may receive at most (input length + 2) records; a reader polling end-of-input more than 10000 times is a livelock (decided on logical steps, not on the clock). Non-trivial = input that differs from its base file; distinct = distinct (format reader, input bytes).";
 
 pub const REQUIRED: &[&str] = &[
-    "reader.jaspar", "reader.jaspar16", "reader.transfac", "reader.uniprobe", "reader.protein", "input.empty",
+    "reader.jaspar", "reader.jaspar16", "reader.transfac", "reader.uniprobe", "reader.protein", "reader.user_defined_40_symbols", "input.empty",
     "input.prefix", "input.substitution", "input.deletion", "input.insertion", "input.multibyte_insertion", "input.framing", "input.no_final_newline",
     "input.ragged", "input.long_line", "input.repetition", "input.repetition_after_record", "input.invalid_utf8_after_record", "input.tag_sweep", "input.header_only", "input.matrix_only", "input.huge_number", "input.duplicate_symbol",
     "input.random_bytes", "input.invalid_utf8", "outcome.error", "outcome.records", "schedule.chunked",
@@ -586,6 +586,7 @@ pub fn run(cfg: &Config) -> Report {
     run_cases(cfg, n_fixed + n_files + n_gen, |case, rng, rep| {
         if case < n_fixed {
             fixed_inputs(case, rng, rep);
+            crate::iowide::never_panics(case, rng, rep);
         } else if case < n_fixed + n_files {
             let (path, format) = TEST_FILES[(case - n_fixed) as usize];
             match std::fs::read(path) {
